@@ -95,7 +95,8 @@ class Unit:
             self.out.append(f"Definition enum_mem_{name} (v : Z) : bool := {body}.")
         return f"enum_mem_{name}"
 
-    def translate(self, qual, coq, env, ret_fields=None, opaque_locals=None, state=None, locks=(), allow_defaults=False):
+    def translate(self, qual, coq, env, ret_fields=None, opaque_locals=None, state=None, locks=(), allow_defaults=False,
+                  state_with_result=False):
         """env: ordered dict  python expression text -> ("param", coqname, ty) | ("call", coqname, [arg texts]) |
         ("const", coq text, ty).  ret_fields: for a constructor call in return position, keep only these fields.
         opaque_locals: {local name: exact source text of its right-hand side} - assignments that are not translated; the
@@ -111,10 +112,15 @@ class Unit:
             ret = ast.parse("return (" + ", ".join(names[k] for k in state) + ("," if len(state) == 1 else "") + ")").body[0]
             if len(state) == 1:
                 ret = ast.parse(f"return {names[list(state)[0]]}").body[0]
-            for sub in ast.walk(ast.Module(body=fn.body, type_ignores=[])):
-                if isinstance(sub, ast.Return):
-                    raise Fail(f"{qual}: a state-mutating method with an explicit return is not translated")
-            fn.body = init + fn.body + [ret]
+            has_return = any(isinstance(sub, ast.Return) for sub in ast.walk(ast.Module(body=fn.body, type_ignores=[])))
+            if has_return and not state_with_result:
+                raise Fail(f"{qual}: a state-mutating method with an explicit return is not translated")
+            if has_return:
+                # every `return e` becomes `return (e, final state)`; all paths must return
+                fn.body = [_ReturnWithState([names[k] for k in state]).visit(st) for st in fn.body]
+                fn.body = init + fn.body
+            else:
+                fn.body = init + fn.body + [ret]
             for n in init + [ret]:
                 ast.fix_missing_locations(ast.copy_location(n, fn))
         params = [(v[1], v[2]) for v in env.values() if v[0] == "param"]
@@ -178,6 +184,20 @@ class _StateAttr(ast.NodeTransformer):
         if key in self.names:
             return ast.copy_location(ast.Name(id=self.names[key], ctx=node.ctx), node)
         return self.generic_visit(node)
+
+
+class _ReturnWithState(ast.NodeTransformer):
+    def __init__(self, names):
+        self.names = names
+
+    def visit_Return(self, node):
+        if node.value is None:
+            raise Fail("return without value in a state-mutating method")
+        tup = ast.Tuple(elts=[node.value] + [ast.Name(id=n, ctx=ast.Load()) for n in self.names], ctx=ast.Load())
+        new = ast.Return(value=tup)
+        ast.copy_location(new, node)
+        ast.fix_missing_locations(new)
+        return new
 
 
 class _Fn:
